@@ -210,6 +210,46 @@ def check(recipe):
     func = _find(mod, "func.func")[0]
     args = list(func.body.block.args)
     arg_types = [a.type for a in args]
+    via_alloc = bool(recipe.get("via_alloc")) and r["form"] == "operation"
+    if via_alloc:
+        # the operands are buffers allocated in the function, without a memory space, and set-memory-space runs first (as in the
+        # real pipeline): a buffer that carries an explicit layout must still carry it when set-memory-layout looks at it
+        from xdsl.dialects import builtin as _b
+        from xdsl.dialects import memref as _m
+
+        blk = func.body.block
+        first = blk.first_op
+        new_vals = []
+        for a in args:
+            t = a.type
+            t2 = _b.MemRefType(t.element_type, t.get_shape(), t.layout, _b.NoneAttr())
+            al = _m.AllocOp([], [], t2)
+            blk.insert_op_before(al, first)
+            a.replace_all_uses_with(al.memref)
+            new_vals.append(al.memref)
+        for a in reversed(args):
+            blk.erase_arg(a)
+        func.function_type = _b.FunctionType.from_lists([], [])
+        mod.verify()
+        try:
+            with cpu_limit(10):
+                run_pass(mod, "set-memory-space", ctx=ctx)
+            mod.verify()
+        except _Hang:
+            raise Reject("set-memory-space: no result within 10 s of CPU time")
+        except Exception as e:
+            raise Reject(f"set-memory-space: {type(e).__name__}: {str(e)[:60]}")
+        ops_now = _find(mod, "dart.operation")
+        if len(ops_now) != 1 or len(ops_now[0].operands) != len(args):
+            raise Reject("set-memory-space changed the operation's operand list")
+        args = list(ops_now[0].operands)
+        want_types = [_b.MemRefType(t.element_type, t.get_shape(), t.layout, a.type.memory_space) for t, a in zip(arg_types, args)]
+        for k, (a, wt) in enumerate(zip(args, want_types)):
+            if a.type != wt:
+                raise Violation("explicit-layout:lost-before-set-memory-layout" if "tsl" in str(arg_types[k]) else
+                                "pipeline:set-memory-space-changed-an-operand-type",
+                                dict(operand=k, was=str(arg_types[k]), now=str(a.type), after=to_text(mod)))
+        arg_types = [a.type for a in args]
 
     if r["form"] == "operation":
         try:
@@ -340,6 +380,8 @@ def check(recipe):
     cls += [f"pad:{reg}" for reg in fired] or ["pad:none"]
     cls.append(f"casts:{'all' if n_cast == len(r['operands']) else 'none' if n_cast == 0 else 'some'}")
     cls.append(f"depth:{depth}")
+    if via_alloc:
+        cls.append("operands-allocated-in-function:set-memory-space-first")
     if nonrow:
         cls.append("layout:not-row-major")
     if padded:
@@ -393,7 +435,10 @@ def explicit_case(draw, tier):
         base = draw(D.schedule_recipe(tier))
     for o in base["operands"]:
         o["layout"] = None
-    return dict(op=draw(D.with_tsl_layouts(base)), tiled=draw(st.booleans()))
+    rec = dict(op=draw(D.with_tsl_layouts(base)), tiled=draw(st.booleans()))
+    if rec["op"].get("form") == "operation" and draw(st.booleans()):
+        rec["via_alloc"] = True
+    return rec
 
 
 def sweep(tier):
